@@ -316,12 +316,14 @@ impl RetryStream {
     }
     /// Check all criteria for a retry and account for it.
     fn may_retry(&mut self) -> bool {
+        // Count the try that just failed before looking at what is left: the first request is not
+        // preceded by a call to this function, so `tries` requests in total means `tries - 1` retries.
+        self.retry_state.increment(&self.settings);
+
         let tries_left = self
             .settings
             .tries
             .saturating_sub(self.retry_state.current_try);
-
-        self.retry_state.increment(&self.settings);
 
         tries_left > 0 && (self.has_range_support || self.retry_state.next_byte == 0)
     }
